@@ -242,7 +242,10 @@ Definition holds_step (B A : list mseries) (r : req) (status : Z) (stats : optio
     (* success: every series was valid, everything asked for is stored *)
     clean && (pres_f A W =? tot_f W) && (pres_h A W =? tot_h W)
     && match stats with
-       | Some (s, h, e) => (s =? tot_f W) && (h =? tot_h W) && (e =? tot_e W) && (pres_e A W =? tot_e W)
+       | Some (s, h, e) => (s =? tot_f W) && (h =? tot_h W)
+           (* exemplars the storage refuses for other reasons than being out of order are dropped
+              without an error by design; the count must still be truthful *)
+           && (snap_exs A - snap_exs B <=? e) && (e <=? pres_e A W)
        | None => match r with R2 _ => false | _ => true end
        end
   | 400 =>
